@@ -61,10 +61,10 @@ func runForInMutate(r *engine.Run) {
 					continue
 				}
 				src := fmt.Sprintf("__fim(%s, %d, %s)", sh.js, step, a.js)
-				r.Begin(key)
+				objdrv.Begin(r, key)
 				im.Ensure()
 				val, oc := im.Run(src)
-				r.End()
+				objdrv.End()
 				obs := oc
 				if oc == "ok" {
 					obs = judgeForIn(val, append(append([]string(nil), sh.own...), sh.proto...), step, a.deletes, a.adds)
